@@ -47,6 +47,10 @@ func backgroundAxioms(used map[string]bool) []*Term {
 		e := App("emptyset", SArr(SInt, SBool))
 		out = append(out, Forall([]*Term{k}, [][]*Term{{Select(e, k)}}, Not(Select(e, k))))
 	}
+	if used["boxv"] {
+		s := App("boxv", SInt, r)
+		out = append(out, Forall([]*Term{r}, [][]*Term{{s}}, And(Lt(s, Num(-1000000)), Eq(App("unboxv", SInt, s), r))))
+	}
 	if used["ifacekey"] {
 		s := App("ifacekey", SInt, r, k)
 		out = append(out, Forall([]*Term{r, k}, [][]*Term{{s}}, And(Eq(App("ikeytag", SInt, s), r), Eq(App("ikeybox", SInt, s), k))))
@@ -76,6 +80,12 @@ func (o *Obligation) script(eng *Engine, withModel bool) string {
 			for i, at := range eng.axiomTerms {
 				if included[i] {
 					continue
+				}
+				if o.noAxiom != "" && at.ax.Lemma && i >= eng.axiomIndex(o.noAxiom) {
+					continue
+				}
+				if len(at.ax.Params) > 0 {
+					continue // parameterised lemmas are proved, never assumed
 				}
 				rel := false
 				for s := range at.syms {
@@ -156,6 +166,7 @@ type dischargeOpts struct {
 	timeout  int
 	allSolvers bool
 	jobs     int
+	seed     int
 }
 
 // discharge runs the solvers on every obligation (in parallel) and fills in the results.
@@ -267,4 +278,13 @@ func minInt(a, b int) int {
 		return a
 	}
 	return b
+}
+
+func (e *Engine) axiomIndex(name string) int {
+	for i, at := range e.axiomTerms {
+		if at.ax.Name == name {
+			return i
+		}
+	}
+	return 1 << 30
 }
